@@ -98,7 +98,7 @@ try:
         # shadow copy of /verif pointing at the mutated worktree
         if os.path.exists(shadow):
             shutil.rmtree(shadow)
-        subprocess.run(["rsync", "-a", "--exclude", ".git", "--exclude", "target", "--exclude", "evidence", "--exclude", "replays", "--exclude", "seeded", "/verif/", shadow + "/"], check=True)
+        subprocess.run(["rsync", "-a", "--exclude", ".git", "--exclude", "target", "--exclude", "evidence", "--exclude", "replays", "--exclude", "seeded", os.environ.get("VERIF_SRC", "/verif").rstrip("/") + "/", shadow + "/"], check=True)
         for f in ["harness/vglue/Cargo.toml"]:
             p = os.path.join(shadow, f)
             s = open(p).read().replace('path = "/repo"', f'path = "{wt}"')
